@@ -279,6 +279,10 @@ func (R *Repository) checkCrl(certificate *x509.Certificate, identifier string) 
 		repositoryEntry.entryLock.RLock()
 		defer repositoryEntry.entryLock.RUnlock()
 		if repositoryEntry.Loaded {
+			if repositoryEntry.CRLStore == nil {
+				//the store was lost by a failed update while this lookup waited for the entry
+				return nil, fmt.Errorf("could not get revocation status from repository: crl store is not available")
+			}
 			status, err := repositoryEntry.CRLStore.GetCertRevocationStatus(issuerRDNSequence, certificate.SerialNumber)
 			if err != nil {
 				return nil, fmt.Errorf("could not get revocation status from repository: %v", err)
@@ -435,6 +439,9 @@ func (R *Repository) getCrlUpdateInformation(entry *Entry, err error) (*core.CRL
 	entry.entryLock.RLock()
 	defer entry.entryLock.RUnlock()
 	oldStore := entry.CRLStore
+	if oldStore == nil {
+		return nil, nil, errors.New("crl store is not available")
+	}
 	points, err := oldStore.GetCRLLocations()
 	if err != nil {
 		return nil, nil, err
